@@ -650,8 +650,10 @@ fn parse_escape_code(l: &mut Lexer<'_>) -> core::result::Result<char, Option<Err
             match l.stream.next() {
                 None => return Err(None),
                 Some((_, '{')) => (),
-                Some((_, unexpected_char)) => {
-                    let span = span_one(l, index, unexpected_char);
+                Some((_, _unexpected_char)) => {
+                    // Point at the `u`; using the length of the unexpected
+                    // character here could end the span inside a character.
+                    let span = span_one(l, index, 'u');
                     let kind = LexErrorKind::UnicodeEscapeMissingBrace { position: index };
                     return error(kind, span);
                 }
